@@ -46,7 +46,7 @@ fn assets_for(node: &Node, lt: u32, sq: u32, keymask: u32, premask: u32) -> Asse
     a
 }
 
-fn one<Pk: msops::HKey, Ctx: ScriptContext>(out: &mut Out, ctx: CtxK, node: &Node, lt: u32, sq: u32, a: &Assets, judge_complete: bool)
+fn one<Pk: msops::HKey, Ctx: ScriptContext>(out: &mut Out, ctx: CtxK, node: &Node, lt: u32, sq: u32, a: &Assets)
 where Assets: miniscript::Satisfier<Pk>
 {
     let ms: Miniscript<Pk, Ctx> = match ast::to_ms(node) { Ok(m) => m, Err(_) => return };
@@ -64,14 +64,10 @@ where Assets: miniscript::Satisfier<Pk>
     let full = Assets::full(node);
     let allpre = full.pre.iter().all(|p| a.pre.contains(p));
     let sn = |b: bool| if b { "some" } else { "none" };
-    if judge_complete {
-        out.line(
-            &format!("J complete {} {} {} {} {} {} {}", ctx.name(), w, aw, sane as u8, allpre as u8, sn(mall), sn(nonmall)),
-            "ok",
-        );
-    } else {
-        out.count("complete-not-judged (generated script with j:, F3 pending)");
-    }
+    out.line(
+        &format!("J complete {} {} {} {} {} {} {}", ctx.name(), w, aw, sane as u8, allpre as u8, sn(mall), sn(nonmall)),
+        "ok",
+    );
     out.line(&format!("J tablecovers {} {} {} {}", ctx.name(), w, aw, sn(mall)), "ok");
     out.count(&format!("verdict mall={} nonmall={} sane={}", sn(mall), sn(nonmall), sane as u8));
 }
@@ -91,7 +87,6 @@ pub fn run(out: &mut Out, thorough: bool, seed: u64) {
         }
         // hand-written corpus: fragments whose (dis)satisfaction rows are easy to get wrong
         // (one ECDSA and the Schnorr context: the satisfier code is context-generic)
-        let n_generated = nodes.len();
         if ctx == CtxK::Segwitv0 || ctx == CtxK::Tap {
             let k = |i: u32| if ctx == CtxK::Tap { 200 + i } else { i };
             let pk = |i: u32| Node::Check(Box::new(Node::PkK(k(i))));
@@ -102,20 +97,13 @@ pub fn run(out: &mut Out, thorough: bool, seed: u64) {
             nodes.push(Node::AndOr(Box::new(Node::NonZero(Box::new(pk(0)))), Box::new(pk(1)), Box::new(pk(2))));
             nodes.push(Node::Thresh(1, vec![Node::NonZero(Box::new(pk(0))), Node::Alt(Box::new(pk(1)))]));
             // a script that passes the sanity rules (type Bdu/esm) and needs the dissatisfaction of j:
+            // (regression cases for the fixed defect F3: `j:X` had the dissatisfaction IMPOSSIBLE)
             nodes.push(Node::OrD(
                 Box::new(Node::NonZero(Box::new(Node::AndV(Box::new(Node::Verify(Box::new(pk(0)))), Box::new(pk(2)))))),
                 Box::new(pk(1)),
             ));
         }
-        for (idx, node) in nodes.into_iter().enumerate() {
-            // ---- BEGIN TEMPORARY (defect F3: sat_dissat.rs gives `j:X` the dissatisfaction
-            // IMPOSSIBLE instead of push_0).  Until /repo is fixed, GENERATED scripts that
-            // contain a `j:` wrapper are not judged for completeness (their verdict would repeat
-            // the known finding on ~100 different inputs); the hand-written corpus above keeps
-            // the finding visible through known_findings.txt.  DELETE this block after the fix
-            // (judge_complete = true everywhere).
-            let judge_complete = idx >= n_generated || !node.wire().contains("j(");
-            // ---- END TEMPORARY
+        for node in nodes {
             n_frag += 1;
             node.count_frags(out);
             let full = Assets::full(&node);
@@ -128,7 +116,7 @@ pub fn run(out: &mut Out, thorough: bool, seed: u64) {
                     for pm in 0..(1u32 << np) {
                         if !thorough && (km.count_ones() + pm.count_ones()) + 2 < nk + np && rng.below(3) != 0 { continue; }
                         let a = assets_for(&node, lt, sq, km, pm);
-                        with_ctx!(ctx, one(out, ctx, &node, lt, sq, &a, judge_complete));
+                        with_ctx!(ctx, one(out, ctx, &node, lt, sq, &a));
                     }
                 }
             }
